@@ -42,6 +42,8 @@ def gen(rng, tier):
         w = (g % 3 == 0)
         k = 3 if tier == "quick" else 4
         picks = [SYSTEMS[(k * g + j) % len(SYSTEMS)] for j in range(k)]     # every system is used by some group of every run
+        if g % 2 == 0 and not any(p_[0] == "km,GN" for p_ in picks):
+            picks[-1] = next(p_ for p_ in SYSTEMS if p_[0] == "km,GN")      # the small point load of these groups is below 1e-10 there
         c = core.case_from_struct(s, Weight=w, Solve=True, Assemble=True, Error=estr(BASE_ERR))
         c.update(group=g, role="base")
         cases.append(c)
